@@ -2,7 +2,8 @@ package httpserver
 
 // Harness for C01 (DESIGN 5/C01): HTTP routing with the route cache off.
 //   TestVerifC01Replay - replays TLC-generated behaviours (configuration + requests with the
-//                        contract's predicted outcome) on a real mux, cacheSize 0 (MBT)
+//                        contract's predicted outcome; "unmap" steps delete a backend from the
+//                        MuxMapper between two requests) on a real mux, cacheSize 0 (MBT)
 //   TestVerifC01Trace  - seeded random configurations and requests from the richer grammar of
 //                        routergen_test.go, observations recorded for TLC trace validation (TV)
 
@@ -16,7 +17,7 @@ func TestVerifC01Replay(t *testing.T) {
 	behs := vx.ReadBehaviours(t, "VERIF_IN")
 	w := vx.NewWriter(t, "VERIF_OUT")
 	defer w.Close()
-	steps, mism, rejected := 0, 0, 0
+	steps, mism, rejected, unmaps := 0, 0, 0, 0
 	for bi, beh := range behs {
 		if len(beh) == 0 || vx.Str(beh[0]["a"]) != "cfg" {
 			t.Fatalf("behaviour %d does not start with cfg", bi)
@@ -28,7 +29,13 @@ func TestVerifC01Replay(t *testing.T) {
 			w.Raw(vx.M{"k": "rejected", "b": bi, "err": err.Error()})
 			continue
 		}
+		gone := []interface{}{}
 		for si, st := range beh[1:] {
+			if vx.Str(st["a"]) == "unmap" { // HttpRouter!Unmap: the backend is deleted, the server is not reloaded
+				delete(mx.rec.known, vx.Str(st["be"]))
+				gone = append(gone, vx.Str(st["be"]))
+				unmaps++
+			}
 			if vx.Str(st["a"]) != "req" {
 				continue
 			}
@@ -39,13 +46,13 @@ func TestVerifC01Replay(t *testing.T) {
 			if !rhSame(got, exp) {
 				mism++
 				w.Raw(vx.M{"k": "mismatch", "b": bi, "step": si + 1, "cfg": cfg, "q": q, "exp": exp, "got": got,
-					"own": st["own"], "spec": mx.spec,
+					"own": st["own"], "spec": mx.spec, "gone": gone,
 					"what": "cache-less mux: " + rhShow(got) + ", contract: " + rhShow(exp)})
 			}
 		}
 		mx.m.close()
 	}
-	w.Raw(vx.M{"k": "summary", "behaviours": len(behs), "steps": steps, "mismatches": mism, "rejected": rejected})
+	w.Raw(vx.M{"k": "summary", "behaviours": len(behs), "steps": steps, "mismatches": mism, "rejected": rejected, "unmaps": unmaps})
 }
 
 func TestVerifC01Trace(t *testing.T) {
